@@ -23,6 +23,8 @@ macro_rules! dispatch {
             "C12" => runner::$f::<scen::alloc::C12>($($arg),*),
             "C13" => runner::$f::<scen::alloc::C13>($($arg),*),
             "C14" => runner::$f::<scen::alloc::C14>($($arg),*),
+            "C17" => runner::$f::<scen::ser::C17>($($arg),*),
+            "C19" => runner::$f::<scen::ser::C19>($($arg),*),
             "C29" => runner::$f::<scen::c29::C29>($($arg),*),
             other => harness_error(&format!("unknown or unclaimed property '{other}'")),
         }
